@@ -30,7 +30,7 @@ def tree_hash():
                 h.update(p.encode())
                 with open(p, 'rb') as fh:
                     h.update(fh.read())
-    for f in ('gen/emit.py', 'gen/desc.py', 'gen/zoo.py'):
+    for f in ('gen/emit.py', 'gen/emit_fe.py', 'gen/desc.py', 'gen/zoo.py'):
         with open(os.path.join(VERIF, f), 'rb') as fh:
             h.update(fh.read())
     _tree_hash = h.hexdigest()[:16]
